@@ -43,7 +43,7 @@ def check_fail_safe(enter_after: int, cooldown: int, events: List[Tuple[int, int
     1 = gateway-side failure, 2 = application exception raised inside the call.
     pre: 1 <= enter_after <= 3
     pre: 1 <= cooldown <= 20
-    pre: len(events) <= 5
+    pre: len(events) <= 6
     pre: all(0 <= k <= 2 and 0 <= dt <= 25 for (k, dt) in events)
     """
     clock = _Clock()
